@@ -1015,6 +1015,9 @@ func (w *vmWalker) assign(s *ast.AssignStmt, in []*vmState) []*vmState {
 					var k int
 					if _, err := fmt.Sscanf(a, "op%d", &k); err == nil {
 						st.jumps[k] = true
+						if v.T[a] != 1 {
+							w.issue("ip advanced by %d times operand %d at %s (a jump adds its offset once)", v.T[a], k, w.m.c.relPos(s.Pos()))
+						}
 					} else {
 						w.issue("ip advanced by %s", a)
 					}
